@@ -187,7 +187,7 @@ func c09(c *orch.Ctx) (*report.Result, error) {
 			}
 		}
 		if len(res.Samples) < 3 {
-			res.Samples = append(res.Samples, map[string]any{"project": p.Name, "features": p.FeatureList(), "opts": optsList[i], "compiled_engines": rp.Engines})
+			res.Samples = append(res.Samples, map[string]any{"project": p.Name, "features": p.FeatureList(), "opts": optsList[i], "accepted": rp.Accepted, "compiled_and_accepted_engines": rp.Engines})
 		}
 	}
 	res.Distinct = dist.N()
